@@ -4,6 +4,51 @@ import json
 
 # id -> (level category, level text, level note, technique, design_ref)
 CHECKS = {
+ "C01": ("exploration",
+   "At each of the 8 verification sites (shipped root self-check, root hop under old keys, under new keys, timestamp, snapshot, targets, delegated role at depth 1 and 2) every signature list up to length 3 (quick) / 4 (thorough) over the property's vocabulary is enumerated for 2 ed25519 keys and thresholds 1..2 (flagged exhaustive), plus thousands of random cases with 1..4 keys of mixed algorithms (ed25519 / ecdsa-p256 / rsa-pss), thresholds 1..4 and lists up to length 5. Each case is a forged repository loaded through RepositoryLoader::load, and the parsed documents are also passed to the public verify_role; acceptance must equal 'distinct authorized table-listed keys with a genuinely valid signature >= threshold', computed from the case alone, and a rejection must be the signature-threshold error of that site.",
+   "Signature validity itself is aws-lc's; documents are canonicalised and signed by the harness' own forge (not by olpc-cjson/tough). No cryptanalysis.",
+   "property-based testing with an independent forge + exhaustive small-scope enumeration of signature lists (proptest)",
+   "DESIGN.md section 4, C01"),
+ "C02": ("exploration",
+   "Random root chains of 0..4 hops with a rotation kind per hop for the root role and the online roles, at most one hop broken in one of 9 ways, any chain version shipped, shipped roots failing their own threshold, expired intermediates, online metadata signed by the keys of any epoch; plus the full grid chain length x rotation kind x broken kind x position. Oracle: a model of the walk written from the statement (both 'fail' and 'stop before the broken hop' accepted, going past it never); observed: load result, trusted root version, exact sequence of N.root.json requests.",
+   "The three online roles share one key set per root version. A root served as N+1.root.json whose version skips ahead is accepted (the statement only requires 'higher').",
+   "model-based property testing over generated root chains + exhaustive grid (proptest)",
+   "DESIGN.md section 4, C02"),
+ "C03": ("exploration",
+   "Histories of 2..4 update cycles on one datastore directory: all 13122 two-cycle version pairs over {1,2,3}^4 without key change (exhaustive, both snapshot modes), random one-root histories with internally inconsistent (failing, partly persisted) cycles, and random histories in which roots 2 and 3 change the timestamp / snapshot / targets keys (replace, add, raise threshold, rotate back) with free choice of shipped and newest served root per cycle. Two-sided oracle from the statement: no rollback between successful cycles unless a newer root changed the keys concerned; a cycle at least as new as everything served before must succeed. Two genuine defects are recorded as known findings (see known_findings.json) and excluded by their signatures so that the search continues behind them.",
+   "The root role's own keys are constant here (C02 covers them). The exemption clause is read permissively (any newer root the client walked to after the earlier cycle); for the snapshot-listed targets version the role concerned is snapshot/timestamp as in the TUF specification.",
+   "stateful (history) property testing against a reference model + exhaustive two-cycle grid (proptest)",
+   "DESIGN.md section 4, C03"),
+ "C04": ("exploration",
+   "The harness owns the client's clock through the verif-hooks feature. Every subset of {root, timestamp, snapshot, targets} expired x enforcement {default, Safe, Unsafe} is enumerated (exhaustive part); random cases place each role's expiry T0 +/- 1 ms .. 50 years and run up to 6 operations (load / read_target / save_target) at clock values reached by forward and backward jumps or placed just before / after a chosen expiry, on one datastore, with 0..2 expired intermediate roots. Oracle from the statement: Safe: load Ok iff nothing has expired, read/save fail iff the earliest expiry has passed, any operation with a clock earlier than a recorded time fails with the stepped-backward error; Unsafe: nothing fails.",
+   "Clock = thread-local override read by Datastore::system_time (hook, guarded by cargo feature verif-hooks). The instant now == expires is never used as a test point.",
+   "property-based testing with a controlled clock over operation sequences + exhaustive subset grid (proptest)",
+   "DESIGN.md section 4, C04"),
+ "C05": ("exploration",
+   "Three internally consistent, correctly signed repository states; a serving plan answers the request for timestamp, snapshot, targets and two delegated roles from independently chosen states: all 243 plans x both snapshot modes exhaustively with version-only pins, plus random plans with digest/length pins present or absent and byte variants that keep signatures valid (re-serialised, extra signature entry, trailing newline, member re-order of equal length). Ok iff every served file matches version, digest and length pinned by the accepted parent and every delegated role is listed; under consistent snapshots exactly the version-prefixed names of the pinning documents are requested.",
+   "Fresh datastore per case. Each role has its own version numbering so that a version taken from the wrong document is visible.",
+   "property-based differential testing of mix-and-match serving plans + exhaustive plan enumeration (proptest)",
+   "DESIGN.md section 4, C05"),
+ "C06": ("exploration",
+   "For one 64-byte target every single-bit flip, truncation point, chunk-error position, small extension and two-chunk split is enumerated (exhaustive part); random cases cover lengths 0..64 KiB, arbitrary chunkings including empty chunks, substitution by another signed target, endless streams, top-level and delegated targets, plain / sub-directory / resolvable / unlisted names, both snapshot modes. The stream's items are checked against the statement: no error => exactly the signed bytes; any other served content => error; never more than the signed length handed over; unlisted => not found without a request; one request, digest-prefixed under consistent snapshots.",
+   "The caller stops at the first error item. SHA-256 collisions out of scope.",
+   "property-based fault injection on the transport stream + exhaustive single-fault enumeration (proptest)",
+   "DESIGN.md section 4, C06"),
+ "C07": ("exploration",
+   "Random delegation trees (<=7 roles, depth <=3, fan-out <=3) with glob and hash-prefix path sets and up to 6 placements over a vocabulary with resolvable names and the same name in several roles with distinct content. Oracle: an independent pre-order lookup; the repository must be refused iff some listed name is reached by nobody; for every vocabulary name only the content of the model's entry verifies (every other placement of that resolved name is served and must be refused) or 'not found' iff the model finds nothing.",
+   "Whether '*' and '?' may match '/' is taken from the library for the pairs where it matters (labelled primitive-from-library in the evidence); everything else is decided by the harness' own matcher. The terminating flag is not part of the statement.",
+   "model-based property testing of delegation lookup (proptest)",
+   "DESIGN.md section 4, C07"),
+ "C13": ("exploration",
+   "Key tables of 1..4 keys of every supported type and encoding (rsa PEM, ed25519 hex, ecdsa PEM / hex point, both ecdsa key-type spellings) with unknown extra members, in root.json and in delegations.keys, with one identifier mutated (bit flips, swap, copy, truncation, other hex case, duplicate entry in either spelling): an exhaustive grid of mutation kind x key type x table plus thousands of random tables. Parse (and, for half of the cases, a full load of a forged repository signed after the mutation) must succeed iff every identifier decodes to the SHA-256 of the harness' own canonical form of the key object and none repeats; identifiers of imported/generated keys are stable across serialise / parse rounds.",
+   "Key ids are recomputed with the harness' own canonical JSON and SHA-256; tough is never asked for an identifier on the oracle side.",
+   "property-based testing with an independent key-id oracle + exhaustive mutation grid (proptest)",
+   "DESIGN.md section 4, C13"),
+ "C18": ("fault_enumeration",
+   "A scripted HTTP/1.1 server on 127.0.0.1 answers the i-th request of a fetch with the i-th action of a fault script over {200 full, 200 stalled after k bytes, 500, 503, 403, 404, 410, 400, 416}, with and without Accept-Ranges (206 from the requested offset). All scripts of length <=2 (quick) / <=3 (thorough) for tries 1..2 in both range modes are enumerated, plus random scripts up to tries+2 for tries 1..4 and sizes 0..256 KiB. Safety on every script: delivered bytes are always an in-order prefix, clean end => whole resource, 403/404/410 => FileNotFound without retry, other 4xx => immediate error, requests <= tries, Range only after the server announced support and at the delivered offset. Liveness only for stall-free scripts.",
+   "Stall handling relies on the client's own 150 ms timer; no wall-clock measurement is a correctness signal. Loopback TCP only.",
+   "fault-script enumeration against a scripted HTTP server + random fault scripts (proptest)",
+   "DESIGN.md section 4, C18"),
  "C11": ("exploration",
    "Exhaustive enumeration of all key sets of size <=3 over the 73 strings of length <=2 from an 8-character alphabet in every insertion order (flagged exhaustive in the evidence), plus hundreds of thousands of random float-free JSON values of depth <=4 (millions in thorough) compared byte-for-byte with an independent canonicaliser, re-parsed by an independent strict parser (injectivity) and checked for insertion-order invariance; values containing floats must be refused. Exploration, not proof: the formatter's state machine is small and driven entirely by the shapes generated here.",
    "Trusts the harness' own reference canonicaliser/parser and its hand-made NFC atom table; unicode normalisation of arbitrary text outside the table is not examined.",
